@@ -1,8 +1,8 @@
 (* C20_strvals (stretch) — pkg/strvals/parser.go: parse :158, key :179 (with its deferred
    recover :180), listItem :335, setIndex :299 (with its deferred recover :303 and the
    MaxIndex bound :312), keyIndex :324; literal_parser.go has the same skeleton.
-   The lexical helpers (runesUntil, valList, val, typedVal, emptyVal, keyIndex) are the
-   shared definitions of Values/Strvals.v (they have no panicking operation); this file
+   The lexical helpers (runesUntil, valList, val, typedVal, emptyVal, keyIndex) are those of
+   Misc/PanicsStrvalsLex.v, a frozen copy of the C04 model's (they have no panicking operation); this file
    re-transcribes key / listItem / setIndex with every panicking operation explicit:
      data[kk].([]interface{})  data[k].(map[string]interface{})  list[i].([]interface{})
      list[i]  list[index] = val  make([]interface{}, index+1)
@@ -13,7 +13,7 @@
    result is never Fatal for fuel = length of the input + 1 is the statement that the
    recursion depth is bounded by the input length. *)
 From Coq Require Import List String Ascii Bool Arith ZArith.
-From Helm Require Import Values.Tree Values.Strvals Misc.Panics.
+From Helm Require Import Values.Tree Misc.PanicsStrvalsLex Misc.Panics.
 Import ListNotations.
 Local Open Scope string_scope.
 
@@ -91,7 +91,7 @@ Section SV.
     match value_after_eq cfg s with
     | VOk v rest => Ok (Some (v, rest))
     | VEof => Ok None
-    | VErr => Err
+    | _ => Err
     end.
 
   (* the body of key below its recover, with the two recursive calls as parameters *)
